@@ -113,6 +113,8 @@ pub(crate) struct SyncAssetTransfer {
     images_to_apply: ImageCache,
     audios: AudioCache,
     audios_to_apply: AudioCache,
+    /// number of the newest download requested per uuid: only its answer is applied
+    latest_request: Arc<RwLock<HashMap<Uuid, u64>>>,
     max_transfer: usize,
 }
 
@@ -147,6 +149,7 @@ impl SyncAssetTransfer {
             images_to_apply,
             audios,
             audios_to_apply,
+            latest_request: Arc::new(RwLock::new(HashMap::<Uuid, u64>::new())),
         };
 
         let (server_tx, server_rx) = channel::<Request>();
@@ -171,6 +174,13 @@ impl SyncAssetTransfer {
         let audios_to_apply = self.audios_to_apply.clone();
         debug!("Queuing request for {:?}:{} at {}", asset_type, id, url);
         let max_transfer = self.max_transfer;
+        let latest_request = self.latest_request.clone();
+        let seq = {
+            let mut latest = latest_request.write().unwrap_or_else(|e| e.into_inner());
+            let n = latest.entry(id).or_insert(0);
+            *n += 1;
+            *n
+        };
         self.download_pool.execute(move || {
             if let Ok(response) = ureq::get(url.as_str()).call() {
                 let len = response
@@ -184,6 +194,13 @@ impl SyncAssetTransfer {
                     .read_to_end(&mut bytes)
                     .is_ok()
                 {
+                    // downloads run in parallel: an older download of this uuid that finishes late
+                    // must not overwrite the answer to a newer request
+                    let latest = latest_request.read().unwrap_or_else(|e| e.into_inner());
+                    if latest.get(&id) != Some(&seq) {
+                        debug!("Dropping outdated download of {}", id);
+                        return;
+                    }
                     match asset_type {
                         SyncAssetType::Mesh => {
                             let mut lock = meshes_to_apply.write();
